@@ -91,6 +91,8 @@ def applyObs (a : AccSt) (t : Nat) (obs : List Obs) : AccSt :=
     | .ret r => { acc with pendRet := (t, match r with | none => "unit" | some b => toString b) :: acc.pendRet.filter (·.1 != t) }
     | .admitted o t1 => { acc with ghost := s!"{t}:admitted@{o}:{t1}" :: acc.ghost }
     | .transition o k => { acc with ghost := s!"{t}:{o}->{kindStr k}" :: acc.ghost }
+    | .recorded .. => acc
+    | .rolled w tk s f => { acc with ghost := s!"{t}:roll{w}@{tk}={s}/{f}" :: acc.ghost }
     | cb => { acc with pendCb := (t, ((acc.pendCb.lookup t).getD []) ++ cbStrs cb) :: acc.pendCb.filter (·.1 != t) }) a
 
 def doStep (a : AccSt) (t : Nat) (act : Act) : Option AccSt :=
